@@ -177,7 +177,7 @@ func history(r *ev.Run, c *ev.Case, hi int, slowCA ...time.Duration) {
 		if lapse && run < 3 {
 			outcome = "ok"
 		}
-		signer := &gsrig.Signer{Agent: ag, NCerts: 1 + rng.Intn(4), NonCert: rng.Intn(6) == 0, NonCertPos: rng.Intn(4)}
+		signer := &gsrig.Signer{Agent: ag, NCerts: 1 + rng.Intn(4), NonCert: rng.Intn(6) == 0, NonCertPos: rng.Intn(4), ShortFirst: rng.Intn(4) == 0, AsAgentKey: hi%5 == 3}
 		for k := rng.Intn(6); k > 0; k-- {
 			signer.Comments = append(signer.Comments, []string{"", "touch", "c-" + gen.Ident(rng, 3)}[rng.Intn(3)])
 		}
@@ -279,8 +279,15 @@ func history(r *ev.Run, c *ev.Case, hi int, slowCA ...time.Duration) {
 				bad("identity-added-without-lifetime", fmt.Sprintf("comment %q", a.Comment))
 				return
 			}
-			if uint64(a.LifetimeSecs) < validity {
-				bad(fmt.Sprintf("lifetime-shorter-than-validity:validity=%d", validity), fmt.Sprintf("lifetime %d s < validity %d s (comment %q)", a.LifetimeSecs, validity, a.Comment))
+			// the validity that counts: what was configured, or — for a certificate the CA granted less to — its own
+			need := validity
+			if a.Certificate != nil && a.Certificate.ValidBefore != ssh.CertTimeInfinity {
+				if own := a.Certificate.ValidBefore - (a.Certificate.ValidAfter + gsrig.IssueSkew); own < need {
+					need = own
+				}
+			}
+			if uint64(a.LifetimeSecs) < need {
+				bad(fmt.Sprintf("lifetime-shorter-than-validity:validity=%d", validity), fmt.Sprintf("lifetime %d s < validity %d s (comment %q; configured validity %d s)", a.LifetimeSecs, need, a.Comment, validity))
 				return
 			}
 			if a.Certificate != nil && a.PrivateKey == nil {
